@@ -199,11 +199,28 @@ pub fn plan<'a>(ctx: &'a Ctx, rng: &mut Rng, tier: Tier) -> Plan<'a> {
                         if !out.starts_with("(?i") {
                             f.push(Fail::new(Kind::Syntax, format!("case-insensitive output {:?} lacks the (?i) flag", out), None));
                         }
+                        // collapse: a test case is stored lower-cased when that keeps its number of code points and the regex crate
+                        // still matches it case-insensitively; test cases with the same stored form are one alternative, so the
+                        // output is the output for the list of stored forms
+                        let stored: Vec<String> = c.tcs.iter().map(|t| {
+                            let l = t.to_lowercase();
+                            let keeps = l.chars().count() == t.chars().count()
+                                && oracle::compile(&format!("(?i)^{}$", oracle::lit(&l))).map(|r| r.is_match(t)).unwrap_or(false);
+                            if keeps { l } else { t.clone() }
+                        }).collect();
+                        if stored != c.tcs && c.cfg.has(BIT_CI) {
+                            let cc = Case { tcs: stored.clone(), cfg: c.cfg };
+                            if let Built::Ok(o2) = build_public(&cc) {
+                                if &o2 != out {
+                                    f.push(Fail::new(Kind::Differ, format!("test cases that differ only by case did not collapse: output {:?}, the output for their lower-cased forms {:?} is {:?}", out, stored, o2), None));
+                                }
+                            }
+                        }
                     }
                     f
                 }),
                 stages: false,
-                explanation: "(?i) prefix present; language equals the (?i)-flagged alternation of the original test cases (regex crate's simple case folding)".into(),
+                explanation: "(?i) prefix present; language equals the (?i)-flagged alternation of the original test cases (regex crate's simple case folding); test cases with the same lower-cased form collapse (output = output for the stored forms)".into(),
                 exhaustive: false,
             }
         }
